@@ -15,11 +15,50 @@ MIX = {"expunge": 14, "store": 14, "copy": 9, "move": 8, "close": 5, "append": 8
        "deliver": 3, "poll": 2, "search": 2, "idle": 1, "check": 1, "unselect": 2}
 
 
+def uid_expunge_after_reuse(ctx):
+    """message numbers and UIDs drift apart (the top message is expunged, new mail reuses its number with a fresh UID); then
+    several messages are \\Deleted and UID EXPUNGE names only some of them: exactly the \\Deleted messages in the UID set go"""
+    import world as W
+    n = 0
+    for variant in range(4 if ctx.thorough else 2):
+        w = W.World(seed=ctx.rng.randrange(1 << 30))
+        try:
+            w.session("A")
+            base = 3 + variant
+            w.deliver("inbox", base, unseen=True)
+            w.cmd("A", "a SELECT inbox")
+            w.cmd("A", f"a STORE {base - 1}:{base} +FLAGS.SILENT (\\Deleted)")
+            w.cmd("A", "a EXPUNGE")                               # the two top numbers are free again
+            w.deliver("inbox", 3, unseen=True)                    # ... and reused, with fresh UIDs
+            w.cmd("A", "a NOOP")
+            mb = w.server.active_mailboxes["inbox"]
+            uids, keys = list(mb.uids), list(mb.msg_keys)
+            marked = uids[-3:]                                    # UIDs that differ from their message numbers
+            named = [marked[0], uids[0], marked[2] + 7] if variant % 2 == 0 else [marked[1]]
+            w.cmd("A", "a UID STORE %s +FLAGS.SILENT (\\Deleted)" % ",".join(map(str, marked)))
+            w.cmd("A", "a UID EXPUNGE %s" % ",".join(map(str, named)))
+            w.cmd("A", "a NOOP")
+            want = [u for u in uids if not (u in marked and u in named)]
+            got = list(w.server.active_mailboxes["inbox"].uids)
+            n += 1
+            ctx.count({"uid_expunge_after_number_reuse": {"uids": uids, "numbers": keys, "deleted": marked, "named": named}},
+                      nontrivial=True)
+            if got != want:
+                ctx.violation(f"UID EXPUNGE {named} with \\Deleted on UIDs {marked} (message numbers {keys} for UIDs {uids}): "
+                              f"the mailbox holds UIDs {got} afterwards, expected {want}",
+                              {"uids_before": uids, "message_numbers": keys, "deleted_uids": marked, "uid_expunge_set": named,
+                               "uids_after": got, "expected": want})
+        finally:
+            w.close()
+    ctx.extra["uid_expunge_after_reuse_cases"] = n
+
+
 def run(ctx):
     ctx.coverage["rule"] = ("histories of 45/70 commands (1-3 sessions incl. EXAMINE sessions, two mailboxes, COPY/MOVE "
                             "also into the same mailbox) biased to \\Deleted stores, EXPUNGE, UID EXPUNGE with partly "
                             "non-existent UIDs and duplicates, CLOSE, COPY, MOVE; non-trivial = a UID EXPUNGE, MOVE or "
-                            "EXAMINE-session command occurred with a non-empty mailbox")
+                            "EXAMINE-session command occurred with a non-empty mailbox. Plus: UID EXPUNGE of part of the \\Deleted messages after "
+                            "message numbers and UIDs have drifted apart (top messages expunged, numbers reused)")
     ok = ctx.prove("Properties/C05.v")
     n = 400 if ctx.thorough else 64
     hs = mboxx.generate(ctx, n, 70 if ctx.thorough else 45, mix=MIX, pack=(4, 4, 5))
@@ -36,6 +75,7 @@ def run(ctx):
                           {"seed": h.seed, "step": k, "ops_up_to_step": [repr(o) for o in h.ops[:k + 1]],
                            "before": h.snaps[k][0]["boxes"] if h.snaps[k][0] else None,
                            "after": h.snaps[k][1]["boxes"] if h.snaps[k][1] else None})
+    uid_expunge_after_reuse(ctx)
     ctx.coq.build(["Model/MboxCmp.vo"])
     bad, _ = mboxx.compare(ctx, "c05", hs)
     report_diffs(ctx, "C05", hs, bad, "model (proved) and implementation disagree (removed / copied messages, response codes)")
